@@ -347,6 +347,32 @@ func (g *Gen) genC14(n int) error {
 			g.emit("close %s", o2)
 			g.emit("vcounters")
 		}
+		if i%5 == 2 && len(b.Docs) <= 50 {
+			// a handle that asks for filtering comes to an index that a plain handle had cached; the plain
+			// one leaves, expiry passes go by, and the remaining handle still searches a live index
+			nd := len(b.Docs)
+			o2 := g.fresh("o")
+			g.emit("open %s %s", o2, f)
+			g.alias(o2, s)
+			for _, fn := range []string{"vecA", "vecB"} {
+				hu, hf := g.fresh("h"), g.fresh("h")
+				ex := g.randDrops(nd)
+				g.emit("vopen %s %s %s filt=0 ex=nil", hu, o2, fn)
+				g.emit("vsearch %s q=%s k=%d", hu, g.randQuery(2), nd*3)
+				g.emit("vopen %s %s %s filt=1 ex=%s", hf, o2, fn, ex)
+				g.emit("vclose %s", hu)
+				for t := 0; t < 3; t++ {
+					g.emit("vtick %s", o2)
+				}
+				g.emit("vsearch %s q=%s k=%d", hf, g.randQuery(2), nd*3)
+				g.emit("vsearch %s q=%s k=%d elig=%s", hf, g.randQuery(2), nd*3, g.liveSubset(nd, ex, 1))
+				g.emit("vclose %s", hf)
+				g.emit("vtick %s", o2)
+			}
+			g.emit("close %s", o2)
+			g.emit("vcounters")
+			g.st("vec.filteredOutlivesPlain")
+		}
 		if i%5 == 3 && len(b.Docs) <= 50 {
 			// first opens of an uncached field by several goroutines at once, all with the same
 			// exclusion bitmap: winner and losers of the race answer alike
@@ -662,6 +688,11 @@ func (g *Gen) genC15(n int) error {
 		}
 		if i%20 == 7 {
 			g.bigVecMerge()
+			continue
+		}
+		if i%20 == 1 {
+			g.manyFieldsVecMergeCase()
+			g.st("case")
 			continue
 		}
 		if i%10 == 4 {
@@ -1732,4 +1763,56 @@ func (g *Gen) storedArraysMergeCase() {
 		g.emit("close %s", m)
 	}
 	g.st("merge.storedarrays")
+}
+
+// manyFieldsVecMergeCase: more than 256 fields, the vector field sorting last (field number 257 in the
+// merged segment): the merged vector index is found under that field, and under no other.
+func (g *Gen) manyFieldsVecMergeCase() {
+	g.setMode()
+	var segs []string
+	var batches []*BatchSpec
+	for k := 0; k < 2; k++ {
+		b := &BatchSpec{Name: g.fresh("b")}
+		for d := 0; d < 2; d++ {
+			id := []byte(fmt.Sprintf("%s-%d", b.Name, d))
+			doc := DocSpec{ID: id, Plain: true}
+			doc.Fields = append(doc.Fields, FieldSpec{Kind: "fld", Name: "_id", Typ: 't', Stored: true, Len: 1, Val: id, Toks: []TokSpec{{Term: id, Freq: 1}}})
+			for f := 0; f < 256; f++ {
+				doc.Fields = append(doc.Fields, FieldSpec{Kind: "fld", Name: fmt.Sprintf("f%03d", f), Typ: 't', Len: 1, Toks: []TokSpec{{Term: []byte(fmt.Sprintf("t%d", (f+d)%3)), Freq: 1}}})
+			}
+			doc.Fields = append(doc.Fields, FieldSpec{Kind: "vec", Name: "zvec", Dim: 2, Metric: "l2_norm", Opt: g.vecOpt["zvec"], Vec: []int{3*k + d - 2, 2*d - k}})
+			b.Docs = append(b.Docs, doc)
+		}
+		g.emitBatch(b)
+		s := g.fresh("s")
+		g.emit("build %s %s", s, b.Name)
+		g.newBuilt(s, b)
+		segs = append(segs, s)
+		batches = append(batches, b)
+	}
+	for _, dr := range []string{"nil|nil", "1|nil"} {
+		fm := g.fresh("f")
+		g.emit("merge %s segs=%s drops=%s", fm, strList(segs), dr)
+		m := g.fresh("m")
+		g.emit("open %s %s", m, fm)
+		g.emit("vstats %s", m)
+		for _, fn := range []string{"zvec", "f000", "_id"} {
+			h := g.fresh("h")
+			g.emit("vopen %s %s %s filt=0 ex=nil", h, m, fn)
+			for _, bx := range batches {
+				for d := range bx.Docs {
+					g.emit("vsearch %s q=%s k=2", h, intList(vecOfDoc(bx, d, "zvec")))
+				}
+			}
+			g.emit("vsearch %s q=%s k=40", h, g.randQuery(2))
+			g.emit("vclose %s", h)
+		}
+		g.emit("q post %s f255 %s ex=nil fl=111", m, hx([]byte("t0")))
+		g.emit("close %s", m)
+	}
+	for _, s := range segs {
+		g.emit("close %s", s)
+	}
+	g.emit("vcounters")
+	g.st("vec.manyfields")
 }
